@@ -6,7 +6,8 @@ EXTENDS Vars, Json
 CONSTANTS MaxItems, MaxRows, Second     \* Second: histories of two queries
 
 KeysK == {"k1", "k2"}
-ValE  == {[k |-> "col", c |-> "a"], [k |-> "lit", v |-> NumV(5)]} \cup {[k |-> "addvar", key |-> x, c |-> "a"] : x \in KeysK}
+\* (the string '1' prints like the number 1 of the first row: a register holds what was written last, not what it resembles)
+ValE  == {[k |-> "col", c |-> "a"], [k |-> "lit", v |-> NumV(5)], [k |-> "lit", v |-> StrV(<<49>>)]} \cup {[k |-> "addvar", key |-> x, c |-> "a"] : x \in KeysK}
 Items == {[k |-> "set", key |-> x, v |-> e] : x \in KeysK, e \in ValE} \cup
          {[k |-> "get", key |-> "k1", as |-> "g"], [k |-> "get", key |-> "k2", as |-> "h"], [k |-> "col", c |-> "a"]}
 Lists == UNION {[1..n -> Items] : n \in 1..MaxItems}
@@ -18,11 +19,14 @@ Lists2 == {<<[k |-> "get", key |-> "k1", as |-> "g"], [k |-> "get", key |-> "k2"
            <<[k |-> "get", key |-> "k2", as |-> "h"], [k |-> "set", key |-> "k2", v |-> [k |-> "col", c |-> "a"]], [k |-> "get", key |-> "k2", as |-> "g"]>>}
 Inits == {<<>>, [x \in {"k1"} |-> NumV(10)]}     \* <<>> : the empty map
 
+\* (a register holding a string is never fed into GETVAR(k) + a: that is a type error, which belongs to C19)
+HasStr(sl) == \E i \in DOMAIN sl : sl[i].k = "set" /\ sl[i].v.k = "lit" /\ sl[i].v.v.t = "str"
+HasAdd(sl) == \E i \in DOMAIN sl : sl[i].k = "set" /\ sl[i].v.k = "addvar"
 Init ==
-    \E sl \in Lists : \E t \in Tables : \E v0 \in Inits :
+    \E sl \in {x \in Lists : ~(HasStr(x) /\ HasAdd(x))} : \E t \in Tables : \E v0 \in Inits :
         \/ \E lm \in {-1, 1} : VarsInit(<<[sel |-> sl, tbl |-> t, lim |-> lm]>>, v0)
         \/ /\ Second
-           /\ \E sl2 \in Lists2 : \E t2 \in {tt \in Tables : Len(tt) = 1} :
+           /\ \E sl2 \in {x \in Lists2 : ~(HasStr(sl) /\ HasAdd(x))} : \E t2 \in {tt \in Tables : Len(tt) = 1} :
                  VarsInit(<<[sel |-> sl, tbl |-> t, lim |-> -1], [sel |-> sl2, tbl |-> t2, lim |-> -1]>>, v0)
 Next == VarsNext
 Spec == Init /\ [][Next]_vvars
